@@ -46,3 +46,4 @@ Section Flat.
     - reflexivity.
   Qed.
 End Flat.
+
